@@ -224,7 +224,8 @@ def main(chk):
         '(database, user) pairs, trust and MD5 pools, the admin database, admin_only mode, with the password message code and every '
         'response byte symbolic for response lengths 0, 3, 35, 36, 37; MD5 is an uninterpreted function and the salt a fresh symbol. '
         'Admission must imply: pool exists (or admin), not shutting down (non-admin), and trust or response == the protocol\'s MD5 answer '
-        'over the configured secret and the salt issued on this connection.')
+        'over the configured secret and the salt issued on this connection.  The secret is per (database, user): the pools ConnectionPool::from_config builds for two users of one '
+        'section do not share their auth_hash cell (O2-rebuild, auth_query configured).')
     chk.assumptions += [
         'MD5 is an uninterpreted function (collisions outside the claim); salt unpredictability, TLS and the auth_query network exchange are outside the claim',
         'cleartext-password pools, the admin database, and auth_query pools (secret = an MD5 hash cached in the pool or fetched during the login; the refetch itself -- a query on a server -- is a stub that succeeds with some hash or fails, by the solver\'s choice)',
